@@ -152,7 +152,7 @@ struct Exec {
         auto eligible = [&](const Access &x) {
             if (x.form != F_VARA && x.form != F_VARS && x.form != F_VARM) return false;
             if (!(x.invalid == INV_NONE || x.invalid == INV_BAD_START || x.invalid == INV_BAD_EDGE || x.invalid == INV_NEG_COUNT || x.invalid == INV_BAD_STRIDE)) return false;
-            if (x.erange_k >= 0 || x.erange >= 0 || x.start.size() != (size_t)nd || x.count.size() != x.start.size()) return false;
+            if (x.start.size() != (size_t)nd || x.count.size() != x.start.size()) return false;
             if (x.form != F_VARA && !x.stride.empty() && x.stride.size() != x.start.size()) return false;
             return true;
         };
